@@ -22,7 +22,7 @@ func C16(p *core.Program, r *core.Report) {
 
 	c := core.NewCanon(p)
 	// ---- Q1
-	fo := mustFunc(p, r, "Q1", "(*"+paginationPkg+".PrevNextFinder).FindOutlink")
+	fo := mustInl(p, r, "Q1", "(*"+paginationPkg+".PrevNextFinder).FindOutlink")
 	if fo != nil {
 		href := `stringutil.CreateAbsoluteURL(dom.GetAttribute(elem(dom.GetElementsByTagName($1,"a")),"href"),$2)`
 		var appends []*ssa.Call
@@ -63,26 +63,29 @@ func C16(p *core.Program, r *core.Report) {
 		}
 		r.Add("Q1", "the allowed prefix is the page URL with its path reset to \"/\"", p.Pos(fo.Pos()), okPrefix, fmt.Sprintf("%d renderings of the page URL", len(unesc)))
 		// stored link and returned value
+		linkField := ""
 		for _, a := range allocsOfAny(fo) {
-			if !strings.HasSuffix(a.Type().String(), "pagingLinkScore") || a.Comment != "complit" {
+			if !strings.HasSuffix(a.Type().String(), "pagingLinkScore") {
 				continue
 			}
 			fs := fieldStores(a)
-			v := ""
-			if len(fs["linkHref"]) == 1 {
-				v = c.Of(fs["linkHref"][0])
+			// the candidate's link: the string field that receives the normalised href
+			for label, vals := range fs {
+				if len(vals) == 1 && c.Of(vals[0]) == "stringutil.UnescapedString(url.Parse("+href+")#0)" {
+					linkField = label
+				}
 			}
-			r.Add("Q1", "a candidate's link is the normalised absolute href of a document anchor", p.Pos(a.Pos()), v == "stringutil.UnescapedString(url.Parse("+href+")#0)", v)
 		}
+		r.Add("Q1", "a candidate's link is the normalised absolute href of a document anchor", p.Pos(fo.Pos()), linkField != "", "link field: "+linkField)
 		for _, ret := range core.Returns(fo) {
-			ok := returnIsLinkHrefOrEmpty(ret.Results[0], map[ssa.Value]bool{})
+			ok := linkField != "" && returnIsLinkHrefOrEmpty(ret.Results[0], linkField, map[ssa.Value]bool{})
 			r.Add("Q1", "FindOutlink returns \"\" or the link of a candidate", p.Pos(ret.Pos()), ok, shortVal(c.Of(ret.Results[0])))
 		}
 		r.Floor("Q1", 6)
 	}
 
 	// ---- Q2
-	gp := mustFunc(p, r, "Q2", "(*"+paginationPkg+".PageNumberFinder).getPageInfoAndText")
+	gp := mustInl(p, r, "Q2", "(*"+paginationPkg+".PageNumberFinder).getPageInfoAndText")
 	if gp != nil {
 		href := `stringutil.CreateAbsoluteURL(dom.GetAttribute($1,"href"),$2)`
 		pr := `url.ParseRequestURI(` + href + `)`
@@ -217,7 +220,7 @@ func C16(p *core.Program, r *core.Report) {
 	r.Add("Q2", "writers of NextPagingURL examined", "", nNext >= 4, fmt.Sprintf("%d stores", nNext))
 
 	// ---- Q3
-	fp := mustFunc(p, r, "Q3", "(*"+paginationPkg+".PageNumberFinder).FindPagination")
+	fp := mustInl(p, r, "Q3", "(*"+paginationPkg+".PageNumberFinder).FindPagination")
 	if fp != nil {
 		var results []string
 		paths, _, err := core.EnumerateDecisions(p, fp, core.DecisionOpts{
@@ -297,7 +300,7 @@ func C16(p *core.Program, r *core.Report) {
 		}
 	}
 	// Apply stores PaginationInfo from the two finders only
-	if ap := mustFunc(p, r, "Q3", core.ModPath+".Apply"); ap != nil {
+	if ap := mustInl(p, r, "Q3", core.ModPath+".Apply"); ap != nil {
 		n := 0
 		okAll := true
 		for _, b := range ap.Blocks {
@@ -313,7 +316,7 @@ func C16(p *core.Program, r *core.Report) {
 		}
 		r.Add("Q3", "Result.PaginationInfo comes from the two finders only", p.Pos(ap.Pos()), okAll && n == 2, fmt.Sprintf("%d stores", n))
 	}
-	if pf := mustFunc(p, r, "Q3", "(*"+paginationPkg+".PrevNextFinder).FindPagination"); pf != nil {
+	if pf := mustInl(p, r, "Q3", "(*"+paginationPkg+".PrevNextFinder).FindPagination"); pf != nil {
 		for _, ret := range core.Returns(pf) {
 			_ = ret
 		}
@@ -323,7 +326,7 @@ func C16(p *core.Program, r *core.Report) {
 }
 
 // returnIsLinkHrefOrEmpty: the value is "" or a load of a linkHref field (through phis).
-func returnIsLinkHrefOrEmpty(v ssa.Value, seen map[ssa.Value]bool) bool {
+func returnIsLinkHrefOrEmpty(v ssa.Value, linkField string, seen map[ssa.Value]bool) bool {
 	if seen[v] {
 		return true
 	}
@@ -334,14 +337,14 @@ func returnIsLinkHrefOrEmpty(v ssa.Value, seen map[ssa.Value]bool) bool {
 		return ok && s == ""
 	case *ssa.Phi:
 		for _, e := range x.Edges {
-			if !returnIsLinkHrefOrEmpty(e, seen) {
+			if !returnIsLinkHrefOrEmpty(e, linkField, seen) {
 				return false
 			}
 		}
 		return true
 	case *ssa.UnOp:
 		if fa, ok := x.X.(*ssa.FieldAddr); ok {
-			return strings.HasSuffix(core.NewCanon(nil).Of(fa), ".linkHref")
+			return strings.HasSuffix(core.NewCanon(nil).Of(fa), "."+linkField)
 		}
 	}
 	return false
